@@ -7,7 +7,10 @@
 (*                                                                          *)
 (* Programs are JSON ASTs (see tools/gen_prog.py):                          *)
 (*   prog = [funs |-> <<[n, ps, b, line]>>, main |-> <<stmt>>]              *)
-(* Every node has fields k (kind) and line.                                 *)
+(* Every node has fields k (kind) and line.  Beyond the core kinds the      *)
+(* evaluator covers struct literals and field access (slit, dot), tuple     *)
+(* destructuring in let and for (letd, ford) and try blocks (try); they are *)
+(* not (yet) in Machine.tla, so only the Ref-based checks generate them.    *)
 (*                                                                          *)
 (* Clauses tagged PINNED encode observable choices of the implementation    *)
 (* that the language documentation does not spell out (DESIGN.md §5.7).     *)
@@ -64,6 +67,7 @@ RECURSIVE EvalSeq(_, _, _, _, _)
 RECURSIVE EvalItemsRev(_, _, _, _, _)
 RECURSIVE WhileLoop(_, _, _)
 RECURSIVE ForLoop(_, _, _, _, _)
+RECURSIVE BindParams(_, _, _, _)
 RECURSIVE MatchArms(_, _, _, _, _)
 RECURSIVE CallValue(_, _, _, _, _)
 
@@ -97,10 +101,15 @@ WhileLoop(prog, e, s) ==
          [] rb.c = "break" -> Ok(UnitV, rb.s)
          [] OTHER -> rb
 
+\* the bindings a loop item gives: one name, or (for `for (a, b) in ...`) one per tuple component
+ForBinds(e, x) == IF "ns" \in DOMAIN e THEN BindParams(e.ns, x.v, 1, EmptyBlk) ELSE Bind(EmptyBlk, e.n, x)
+ForItemOk(e, x) == "ns" \notin DOMAIN e \/ (x.k = "Tuple" /\ Len(x.v) = Len(e.ns))
+
 ForLoop(prog, e, xs, i, s) ==
   IF i > Len(xs) THEN Ok(UnitV, s)
   ELSE IF s.fuel = 0 THEN R("fuel", UnitV, s, "", 0)
-  ELSE LET rb == EvalBlock(prog, e.b, [s EXCEPT !.fuel = @ - 1], Bind(EmptyBlk, e.n, xs[i])) IN
+  ELSE IF ~ForItemOk(e, xs[i]) THEN Err("TypeError", e.it.line, s)
+  ELSE LET rb == EvalBlock(prog, e.b, [s EXCEPT !.fuel = @ - 1], ForBinds(e, xs[i])) IN
        CASE rb.c \in {"ok", "continue"} -> ForLoop(prog, e, xs, i + 1, rb.s)
          [] rb.c = "break" -> Ok(UnitV, rb.s)
          [] OTHER -> rb
@@ -122,7 +131,6 @@ HasType(v, t) ==
     [] t = "Bool" -> IsBool(v)
     [] OTHER -> TRUE
 
-RECURSIVE BindParams(_, _, _, _)
 BindParams(ps, args, i, blk) ==
   IF i > Len(ps) THEN blk ELSE BindParams(ps, args, i + 1, Bind(blk, ps[i], args[i]))
 
@@ -225,6 +233,27 @@ Eval(prog, e, s) ==
     [] e.k = "tuple" ->
          LET r == EvalItemsRev(prog, e.xs, Len(e.xs), s, <<>>) IN
          IF r.c # "ok" THEN r ELSE Ok(TupV(r.v.v), r.s)
+    [] e.k = "slit" ->
+         \* struct literal: field expressions are evaluated last to first, like tuple items (PINNED);
+         \* the value keeps the literal's field order
+         LET r == EvalItemsRev(prog, [i \in 1..Len(e.fs) |-> e.fs[i].e], Len(e.fs), s, <<>>) IN
+         IF r.c # "ok" THEN r
+         ELSE Ok(StructV(e.n, [i \in 1..Len(e.fs) |-> [n |-> e.fs[i].n, v |-> r.v.v[i]]]), r.s)
+    [] e.k = "dot" ->
+         LET r == Eval(prog, e.e, s) IN
+         IF r.c # "ok" THEN r
+         ELSE IF r.v.k # "Struct" THEN Err("TypeError", e.line, r.s)
+         ELSE LET S == {i \in 1..Len(r.v.fs) : r.v.fs[i].n = e.f} IN
+              IF S = {} THEN Err("NoField", e.line, r.s) ELSE Ok(r.v.fs[CHOOSE i \in S : TRUE].v, r.s)
+    [] e.k = "letd" ->
+         \* let (a, b) = e: the value must be a tuple with as many items as names
+         LET r == Eval(prog, e.e, s) IN
+         IF r.c # "ok" THEN r
+         ELSE IF r.v.k # "Tuple" \/ Len(r.v.v) # Len(e.ns) THEN Err("TypeError", e.line, r.s)
+         ELSE Ok(UnitV, [r.s EXCEPT !.bl[Len(r.s.bl)] = BindParams(e.ns, r.v.v, 1, @)])
+    [] e.k = "try" ->
+         \* PINNED: the catch block is not evaluated at run time; try { b } is the block b
+         EvalBlock(prog, e.b, s, EmptyBlk)
     [] e.k = "ctor" ->
          \* Some(e), Ok(e), Err(e), user variants with payload; bare variants
          LET r == EvalItemsRev(prog, e.args, Len(e.args), s, <<>>) IN
@@ -241,7 +270,7 @@ Eval(prog, e, s) ==
               ELSE IF e.else THEN EvalBlock(prog, e.f, rc.s, EmptyBlk)
               ELSE Ok(UnitV, rc.s)
     [] e.k = "while" -> WhileLoop(prog, e, s)
-    [] e.k = "for"  ->
+    [] e.k \in {"for", "ford"} ->
          LET r == Eval(prog, e.it, s) IN
          IF r.c # "ok" THEN r
          ELSE IF ~IsList(r.v) THEN Err("TypeError", e.it.line, r.s)
